@@ -29,6 +29,7 @@ mod fam_stream;
 mod sched;
 mod fam_text;
 mod fam_toolchain;
+mod fam_view;
 mod symbolic;
 
 pub use common::*;
@@ -66,6 +67,7 @@ fn family(name: &str) -> Option<Runner> {
         "stream" => fam_stream::run,
         "text" => fam_text::run,
         "toolchain" => fam_toolchain::run,
+        "view" => fam_view::run,
         _ => return None,
     })
 }
